@@ -627,6 +627,14 @@ func init() {
 		if ot.Contract == "" {
 			ot.Contract = ethAddr(g.R.Intn(4))
 		}
+		if mode == ModeNearMiss && g.R.Chance(0.35) {
+			// everything as a rightful issuer would send it - except the contract, which is no address
+			if own := g.classIssuedBy(v, a); own != nil {
+				c = own
+			}
+			ot.Contract = Pick(g.R, []string{"  ", "", " " + ot.Contract, ot.Contract + " ", "\t", "0x123", strings.ToUpper(ot.Contract)})
+			g.W.Probe("bridge_receive_with_damaged_contract")
+		}
 		m := &basetypes.MsgBridgeReceive{Issuer: a.Addr, ClassId: c.Id,
 			Project:  &basetypes.MsgBridgeReceive_Project{ReferenceId: Pick(g.R, refIDs), Jurisdiction: g.jurisdiction(), Metadata: "bridged project"},
 			Batch:    &basetypes.MsgBridgeReceive_Batch{Recipient: g.user().Addr, Amount: g.issueAmount(6), StartDate: &s, EndDate: &e, Metadata: "bridged batch"},
